@@ -4,6 +4,7 @@ package main
 // SQL-RANGE, SQL-NUM, MARKER-AGREE.
 
 import (
+	"strconv"
 	"fmt"
 	"go/types"
 	"regexp"
@@ -740,6 +741,101 @@ func (c *Ctx) numFinite(r *Report) {
 		}
 	}
 	r.floor(rule, "float producers", n, 1)
+	c.numFiniteReducers(r)
+}
+
+// finiteGuards reads off a path's atoms what they establish about the float value with key fk.
+// An ordered comparison excludes NaN only in its source polarity: not(x <= 0) holds for NaN, x > 0 does not.
+func finiteGuards(atoms []Atom, fk string) (notNaN, lower, upper bool) {
+	for _, a := range atoms {
+		switch {
+		case a.Kind == "call" && !a.Pos && a.Subj == "math.IsNaN" && a.Val == fk:
+			notNaN = true
+		case a.Kind == "call" && !a.Pos && a.Subj == "math.IsInf" && strings.HasPrefix(a.Val, fk+","):
+			switch strings.TrimPrefix(a.Val, fk+",") {
+			case "0":
+				lower, upper = true, true
+			case "1":
+				upper = true
+			case "-1":
+				lower = true
+			}
+		case a.Kind == "cmp" && a.Subj == fk && !a.Neg:
+			if _, err := strconv.ParseFloat(a.Val, 64); err != nil {
+				continue
+			}
+			switch a.Op {
+			case ">", ">=":
+				notNaN, lower = true, true
+			case "<", "<=":
+				notNaN, upper = true, true
+			case "==":
+				notNaN, lower, upper = true, true, true
+			}
+		}
+	}
+	return
+}
+
+// numFiniteReducers: the same obligation for numbers that become node attributes (boost power, …):
+// wherever a reducer hands the result of strconv.ParseFloat to a constructor of the expression package,
+// the path (helpers read in place) has established that the value is neither NaN nor infinite.
+// encoding/json refuses NaN and ±Inf, so such a node cannot be encoded at all.
+func (c *Ctx) numFiniteReducers(r *Report) {
+	const rule = "NUM-FINITE"
+	pt := c.prodTable()
+	seen := map[string]bool{}
+	for _, red := range pt.Reducers {
+		paths, complete := c.enumPathsOpt(red, 20000, c.inlBool(pt.Wrapper))
+		if !complete {
+			r.bad(rule, "paths|"+fnName(red), c.pos(red.Pos()), "too many paths")
+			continue
+		}
+		for _, p := range paths {
+			for _, pc := range p.Calls {
+				callee := pc.Call.Call.StaticCallee()
+				if callee == nil || fnPkgPath(callee) != pkgExpr {
+					continue
+				}
+				for _, a := range pc.Args {
+					i := strings.Index(a, "strconv.ParseFloat(")
+					if i < 0 {
+						continue
+					}
+					j := strings.Index(a[i:], ")#0")
+					if j < 0 {
+						continue
+					}
+					fk := a[i : i+j+3]
+					notNaN, lower, upper := finiteGuards(p.Atoms, fk)
+					key := fnName(red) + "|ParseFloat→" + fnName(callee)
+					okG := notNaN && lower && upper
+					if !okG {
+						key += "|unguarded"
+					}
+					if seen[key] {
+						continue
+					}
+					seen[key] = true
+					if okG {
+						r.ok(rule, key, c.instrPos(pc.Call), "on this path the parsed value is neither NaN nor infinite")
+						continue
+					}
+					var miss []string
+					if !notNaN {
+						miss = append(miss, "NaN (a negated comparison such as !(f <= 0) lets NaN through)")
+					}
+					if !lower {
+						miss = append(miss, "-Inf")
+					}
+					if !upper {
+						miss = append(miss, "+Inf")
+					}
+					r.badW(rule, key, c.instrPos(pc.Call), "a float parsed with strconv.ParseFloat (which accepts nan, inf, infinity) becomes a node attribute on a path that does not exclude "+strings.Join(miss, ", ")+": encoding/json refuses such a value, so the expression Parse returned cannot be encoded", "`a^inf` parses to BOOST(a, +Inf); json.Marshal fails with \"unsupported value: +Inf\"")
+				}
+			}
+		}
+	}
 }
 
 func (c *Ctx) hasFiniteNaN(atoms []Atom) bool {
